@@ -95,7 +95,7 @@ def Corr (st : SState) (f : Evm.Frame) (out : StepOut) : Prop :=
   (∃ st' w' f', out = contOut st' ∧ Sat I st'.path ∧ st'.visits = st.visits ∧
       CReach p (w, f) (w', f') ∧ R I env code p st' f' ∧ WStep I f.this st w st' w') ∨
   (∃ st0 h data, out = haltOut st0 h .normal data ∧ st0.path = st.path ∧
-      st0.storage = st.storage ∧ st0.transient = st.transient ∧
+      st0.storage = st.storage ∧ st0.transient = st.transient ∧ (∀ b ∈ data, b.WF ∧ b.width = 8) ∧
       Evm.step p w f = .halt w (haltWith h (data.map (·.eval I)))) ∨
   (∃ e, out = { ends := [e] } ∧ e.st.path = st.path ∧ ((∃ r, e.out = .stuck r) ∨ e.tag ≠ .normal)) ∨
   (∃ st0 target c, out = jumpi s o cfg code st0 target c (st.pc + 1) ∧ c.WF ∧ st0.path = st.path ∧
@@ -133,13 +133,15 @@ theorem Corr.halt {st0 : SState} {h : Evm.Halt} (hp : st0.path = st.path) (hstep
     (hh : haltWith h [] = h := by rfl)
     (hs : st0.storage = st.storage := by rfl) (ht : st0.transient = st.transient := by rfl) :
     Corr I env code p w s o cfg st f (haltOut st0 h) :=
-  Or.inr (Or.inl ⟨st0, h, [], rfl, hp, hs, ht, by simp only [List.map_nil, hh]; exact hstep⟩)
+  Or.inr (Or.inl ⟨st0, h, [], rfl, hp, hs, ht, fun _ hb => absurd hb List.not_mem_nil,
+    by simp only [List.map_nil, hh]; exact hstep⟩)
 
 theorem Corr.haltData {st0 : SState} {h : Evm.Halt} {data : List T} (hp : st0.path = st.path)
+    (hwf : ∀ b ∈ data, b.WF ∧ b.width = 8)
     (hstep : Evm.step p w f = .halt w (haltWith h (data.map (·.eval I))))
     (hs : st0.storage = st.storage := by rfl) (ht : st0.transient = st.transient := by rfl) :
     Corr I env code p w s o cfg st f (haltOut st0 h .normal data) :=
-  Or.inr (Or.inl ⟨st0, h, data, rfl, hp, hs, ht, hstep⟩)
+  Or.inr (Or.inl ⟨st0, h, data, rfl, hp, hs, ht, hwf, hstep⟩)
 
 theorem Corr.stuck {st0 : SState} {r : StuckReason} (hp : st0.path = st.path) :
     Corr I env code p w s o cfg st f (stuckOut st0 r) :=
